@@ -25,7 +25,9 @@ JOIN_REF = {
 }
 SETOP_REF = {('Union', True): 'sa.union', ('Union', False): 'sa.union_all', ('Intersect', True): 'sa.intersect',
              ('Intersect', False): 'sa.intersect_all', ('Except', True): 'sa.except_', ('Except', False): 'sa.except_all'}
-OP_REF = {'+': '__add__', '-': '__sub__', '*': '__mul__', '/': '__truediv__', '%': '__mod__', '=': '__eq__', '!=': '__ne__',
+# `+`: SQLAlchemy's __add__ is dispatched on operand TYPES (over a string-typed operand it is a concatenation: `||` / concat()), so the written operator is kept
+# only by the generic arg0.op('+')(arg1) - reference knowledge about the library, like the join table
+OP_REF = {'+': 'generic:+', '-': '__sub__', '*': '__mul__', '/': '__truediv__', '%': '__mod__', '=': '__eq__', '!=': '__ne__',
           '<>': '__ne__', '>': '__gt__', '<': '__lt__', '>=': '__ge__', '<=': '__le__', 'is': 'is_', 'is not': 'is_not',
           'like': 'like', 'not like': ('notlike', 'not_like'), 'in': 'in_', 'not in': ('notin_', 'not_in'), '||': 'concat'}
 BOOL_REF = {'and': 'sa.and_', 'or': 'sa.or_'}
@@ -513,6 +515,74 @@ def run(ctx):
             ok, shown = r.exc_name == 'NotImplementedError', f'<{r.exc_name}>'
         ctx.ob('C06.predicate-table', label_, ok, f'`{label_}` is translated to {shown}: the predicate the tree denotes is not the one rendered', file=FILE, line=te.lineno,
                witness='select * from t where not exists (select 1 from s)')
+    # column references: a name of several parts is a column of a table whatever its last part spells (`e.current_date` is a column, only the bare word
+    # CURRENT_DATE is the function); every part reaches to_column
+    nid = 0
+    for parts_ in (['a'], ['t', 'a'], ['s', 't', 'a'], ['t', 'current_date'], ['e', 'CURRENT_TIME'], ['s', 't', 'current_user'], ['t', 'Current_Timestamp'], ['t', 'user'],
+                   ['t', 'date'], ['x', 'count'], ['current_date'], ['CURRENT_USER']):
+        node_ = Obj('Identifier', parts=list(parts_), alias=None, parentheses=False)
+        stubs = sa_stubs()
+        stubs.update({'self.get_alias': lambda it, x: x, 'self.to_column': lambda it, parts: Elem('column', tuple(parts))})
+        for fname in ('current_date', 'current_time', 'current_timestamp', 'current_user', 'now', 'user'):
+            stubs[f'sa_fnc.{fname}'] = (lambda fn_: (lambda it, *a, **k: Elem('function', fn_)))(fname)
+            stubs[f'sa.func.{fname}'] = stubs[f'sa_fnc.{fname}']
+        it = Interp.for_file(ctx.src, FILE, isa_real, stubs)
+        it.stubs['getattr'] = elem_getattr
+        try:
+            res = it.call_function(te, [Obj('SqlalchemyRender', dialect=Obj('Dialect', name='postgresql')), node_], {}, Env())
+            shown = repr(res) if not isinstance(res, Elem) else f'{res.kind}:{res.value}'
+            if len(parts_) > 1:
+                ok = isinstance(res, Elem) and res.kind == 'column' and res.value == tuple(parts_)
+            else:
+                ok = isinstance(res, Elem) and ((res.kind == 'column' and res.value == tuple(parts_)) or (res.kind == 'function' and res.value == parts_[0].lower()))
+        except Raised as r:
+            ok, shown = r.exc_name == 'NotImplementedError', f'<{r.exc_name}>'
+        nid += 1
+        ctx.ob('C06.column-reference', '.'.join(parts_), ok,
+               f'the column reference `{".".join(parts_)}` is translated to {shown}: a qualified name is the column of that table with all its parts; only a bare '
+               f'CURRENT_DATE / CURRENT_TIME / CURRENT_TIMESTAMP / CURRENT_USER is the function', file=FILE, line=te.lineno,
+               witness='select e.current_date from events e')
+    ctx.setcount('column_reference_rows', nid)
+    # functions written with FROM inside the parentheses: only EXTRACT's first argument is a field NAME; everywhere else it is an expression and must reach the
+    # function as the translated expression (substring(a FROM 2) over the column a, not over the string 'a')
+    tf = function_named(cls, 'to_function')
+    ctx.need(tf is not None, 'SqlalchemyRender.to_function not found')
+    from ..interp import ClassRef as _ClassRef
+    nfa = 0
+    for fname, first in itertools.product(('substring', 'SUBSTRING', 'overlay', 'extract', 'EXTRACT', 'trim'), ('column', 'expression')):
+        a0 = Obj('Identifier', parts=['a'], alias=None, parentheses=False) if first == 'column' else \
+            Obj('BinaryOperation', op='||', args=[Obj('Identifier', parts=['a'], alias=None, parentheses=False), Obj('Identifier', parts=['b'], alias=None, parentheses=False)],
+                alias=None, parentheses=False, to_string=lambda *a, **k: 'a || b')
+        if first == 'column':
+            a0.attrs['to_string'] = lambda *a, **k: 'a'
+        node_ = Obj('Function', op=fname, args=[a0], from_arg=Obj('Constant', value=2, alias=None, parentheses=False), distinct=False, namespace=None, alias=None,
+                    parentheses=False)
+        stubs = sa_stubs()
+        stubs.update({'self.get_alias': lambda it, x: x, 'self.to_column': lambda it, parts: Elem('column', tuple(parts))})
+
+        def getattr_(itp, o, name, *d_):
+            if isinstance(o, _ClassRef) and o.name in ('sa.func', 'func', 'sa_fnc'):
+                return lambda *a, **k: Elem('function', name, a)
+            return elem_getattr(itp, o, name, *d_)
+        stubs['self.to_expression'] = lambda it, n_: (Elem('column', tuple(n_.parts)) if n_.kind == 'Identifier' else
+                                                      (Elem('literal', n_.value) if n_.kind == 'Constant' else Elem('expression', n_.kind)))
+        it = Interp.for_file(ctx.src, FILE, isa_real, stubs)
+        it.stubs['getattr'] = getattr_
+        nfa += 1
+        try:
+            res = it.call_function(tf, [Obj('SqlalchemyRender', dialect=Obj('Dialect', name='postgresql')), node_], {}, Env())
+            first_arg = res.args[0] if isinstance(res, Elem) and res.kind == 'function' and res.args else None
+            if fname.lower() == 'extract':
+                ok = isinstance(first_arg, (str, Elem))
+            else:
+                ok = isinstance(first_arg, Elem) and first_arg.kind in ('column', 'expression')
+            shown = repr(first_arg)
+        except Raised as r:
+            ok, shown = r.exc_name == 'NotImplementedError', f'<{r.exc_name}>'
+        ctx.ob('C06.function-from-argument', f'{fname}({first} FROM 2)', ok,
+               f'`{fname}(<{first}> FROM 2)`: the first argument reaches the SQL function as {shown}; it must be the translated expression (a column stays a column): as a '
+               f'Python string it is rendered as a string literal - substring(\'a\' FROM 2)', file=FILE, line=tf.lineno, witness='select substring(a from 2) from t')
+    ctx.setcount('function_from_rows', nfa)
     # clause coverage -----------------------------------------------------------------------------------------------------
     model = model_for(ctx.src)
     fns = {m.name: m for m in cls.body if isinstance(m, ast.FunctionDef)}
